@@ -116,10 +116,10 @@ class Ptr:
 
 
 class LV:
-    __slots__ = ('box', 'key')
+    __slots__ = ('box', 'key', 'it')
 
-    def __init__(self, box, key):
-        self.box, self.key = box, key
+    def __init__(self, box, key, it=None):
+        self.box, self.key, self.it = box, key, it
 
     def load(self):
         return self.box[self.key]
@@ -184,6 +184,7 @@ class Interp:
         self.steps = 0
         self.derefs = 0
         self.trace_calls = []
+        self.read_log = None         # set to [] to record every (vector, index) that is dereferenced
 
     # ---- helpers ---------------------------------------------------------------------------------
     def broken(self, fn, e, why):
@@ -200,7 +201,9 @@ class Interp:
         if not (0 <= it.idx < len(it.vec.items)):
             raise Violation('an iterator is dereferenced outside [begin, end): index %d of %d' % (it.idx, len(it.vec.items)), fn.loc(e))
         self.derefs += 1
-        return LV(it.vec.items, it.idx)
+        if self.read_log is not None:
+            self.read_log.append((it.vec, it.idx))
+        return LV(it.vec.items, it.idx, it)
 
     def truth(self, v, fn, e):
         if isinstance(v, bool):
@@ -455,6 +458,12 @@ class Interp:
                         'ConstructorConversion', 'UserDefinedConversion', 'DerivedToBase', 'UncheckedDerivedToBase', 'BuiltinFnToFnPtr'):
                 if ck == 'IntegralToBoolean' and isinstance(s, int):
                     s = bool(s)
+                if ck == 'IntegralCast' and isinstance(s, (Co, Lz)):
+                    from .cfg import int_type
+                    tt = int_type(e.get('t'))
+                    ft = int_type(fn.N(c[0]).get('t'))
+                    if tt and ft and (tt[0] < ft[0] or (tt[1] and not ft[1] and tt[0] <= ft[0])):
+                        s = Op()                 # truncation / reinterpretation as signed: order is not preserved, the value is opaque from here on
                 if ck == 'IntegralCast' and isinstance(s, int) and not isinstance(s, bool):
                     from .cfg import int_type
                     tt = int_type(e.get('t'))
@@ -538,6 +547,9 @@ class Interp:
             if op == '&':
                 if isinstance(s, Fnref):
                     val[i] = s
+                    return
+                if isinstance(s, LV) and s.it is not None and not isinstance(s.load(), Rec):
+                    val[i] = It(s.it.vec, s.it.idx, s.it.gen)
                     return
                 if isinstance(s, LV) and isinstance(s.box, list) and isinstance(s.load(), Rec):
                     val[i] = Ptr(s.load())
@@ -735,6 +747,13 @@ class Interp:
             return self.vec_native(fn, e, short, obj, args)
         if fq.startswith('std::numeric_limits<float>::max'):
             return Op('max')
+        if fq in ('be::swap',):
+            return self.rv(args[0])              # byte order is a representation detail: the abstract cell holds the value
+        if fq in ('be::peek',):
+            p_ = self.rv(args[0])
+            if isinstance(p_, It):
+                return self.deref_it(p_, fn, e).load()
+            self.broken(fn, e, 'be::peek of a %s' % type(p_).__name__)
         nat = self.natives.get(fq)
         if nat is not None:
             return nat(self, fn, e, obj, args)
